@@ -57,3 +57,44 @@ Example c30_nonvacuous :
   matched la (mk_sol [97;98] [99] [3] 0) lb (mk_sol [97;98] [99] [] 0) = false /\
   receivers la [mk_sol [97;98] [99] [2] 5; mk_sol [97] [98;99] [] 0] lb [mk_sol [97;98] [99] [] 6] = [0%nat].
 Proof. cbn zeta. split; [split; reflexivity|]. repeat split; vm_compute; reflexivity. Qed.
+
+(* link lifecycle: the set of already matched hashes belongs to the link state.
+   After ANY history of links coming up, settling and going down (matches on
+   the same uuid before, parallel links, ...), a link whose uuid is not tracked
+   comes up and is matched afresh: side a's directives that receive a stream
+   are exactly `receivers` (= the matched ones, c30_receivers_are_the_matched),
+   side b's likewise *)
+Theorem c30_link_up_after_any_history : forall sa sb hist id la lb,
+  let ls := lrun sa sb [] hist in
+  is_up id ls = false ->
+  let ls1 := fst (lstep sa sb ls (LinkUp id la lb)) in
+  In (id, (receivers la sa lb sb, flat_map (resolve_match lb sb) (matched_hashes la sa lb sb)))
+     (snd (lstep sa sb ls1 Settle)).
+Proof. exact link_up_after_any_history. Qed.
+Print Assumptions c30_link_up_after_any_history.
+
+Theorem c30_link_up_side_b : forall la sa lb sb j,
+  ends_of_one_link la lb ->
+  (In j (flat_map (resolve_match lb sb) (matched_hashes la sa lb sb)) <->
+   exists b a, nth_error sb j = Some b /\ In a sa /\ matched lb b la a = true).
+Proof. exact deliveries_b_iff. Qed.
+Print Assumptions c30_link_up_side_b.
+
+(* a lost link is forgotten (its uuid can come up again) and a settled link
+   opens no second stream for the same hash *)
+Theorem c30_link_down_forgets : forall sa sb ls id,
+  is_up id (fst (lstep sa sb ls (LinkDown id))) = false.
+Proof. exact link_down_forgets. Qed.
+Print Assumptions c30_link_down_forgets.
+
+Theorem c30_settle_twice_nothing_new : forall sa sb p,
+  new_hashes sa sb (snd (settle_link sa sb p)) = [].
+Proof. exact settle_twice_nothing_new. Qed.
+Print Assumptions c30_settle_twice_nothing_new.
+
+Example c30_relink_nonvacuous :
+  let la := mk_side [1] [2] 5 in let lb := mk_side [2] [1] 6 in
+  let sa := [mk_sol [97] [98] [] 0] in let sb := [mk_sol [97] [98] [] 0; mk_sol [97;98] [] [] 0] in
+  snd (lstep sa sb (lrun sa sb [] [LinkUp 7 la lb; Settle; LinkDown 7; LinkUp 7 la lb]%nat) Settle)
+  = [(7%nat, ([0%nat], [0%nat]))].
+Proof. vm_compute. reflexivity. Qed.
